@@ -448,7 +448,7 @@ func c09run(k *c09case, generous bool) (o c09obs) {
 		r.res, r.err = sc.Scan(ctx, req)
 	}()
 	var r ret
-	hang := false
+	hang, forever := false, false
 	select {
 	case r = <-rc:
 	case <-time.After(c09HardCap):
@@ -458,7 +458,9 @@ func c09run(k *c09case, generous bool) (o c09obs) {
 		select {
 		case r = <-rc:
 		case <-time.After(c09HardCap):
-			o.infra = "Scan did not return even after the server and the context were torn down"
+			// neither its own timeouts, nor the cancelled context, nor the closed peer end the probe
+			forever = true
+			r.at = time.Now()
 		}
 	}
 	close(s.done)
@@ -506,6 +508,8 @@ func c09run(k *c09case, generous bool) (o c09obs) {
 	switch {
 	case r.panic != nil:
 		fail("panic:"+k.name(), "Scan panicked: %v", r.panic)
+	case forever:
+		fail("hang-forever:"+k.name(), "Scan never returned: not after its timeouts (%v/%v), not after the context was cancelled, not after the server closed the connection (waited %v)", dialT, dataT, 2*c09HardCap)
 	case hang:
 		fail("hang:"+k.name(), "Scan still running %v after the start (timeouts %v/%v, bound %v); it returned only when the harness tore the server down",
 			c09HardCap, dialT, dataT, dialT+3*dataT+c09Slack)
